@@ -21,20 +21,6 @@ Ltac nat_norm :=
 Lemma add_sub_l : forall n k, (n + k - n = k)%nat.
 Proof. intros. lia. Qed.
 
-(* two states whose components are tabulations are equal as soon as their entries are *)
-Lemma kstate_eq_tab : forall N (s1 s2 : kstate Rops) f1 f2 g1 g2,
-    mean s1 = vtab Rops N f1 -> mean s2 = vtab Rops N f2 ->
-    cov s1 = mtab Rops N N g1 -> cov s2 = mtab Rops N N g2 ->
-    (forall i, (i < N)%nat -> vgetR (mean s1) i = vgetR (mean s2) i) ->
-    (forall i j, (i < N)%nat -> (j < N)%nat -> mgetR (cov s1) i j = mgetR (cov s2) i j) ->
-    s1 = s2.
-Proof.
-  intros N [m1 c1] [m2 c2] f1 f2 g1 g2 Hm1 Hm2 Hc1 Hc2 Hm Hc. cbn [mean cov] in *. subst.
-  f_equal.
-  - apply vtab_ext. intros i Hi. specialize (Hm i Hi). rewrite !vget_vtab in Hm by assumption. exact Hm.
-  - apply mtab_ext. intros i j Hi Hj. specialize (Hc i j Hi Hj). rewrite !mget_mtab in Hc by assumption. exact Hc.
-Qed.
-
 Section Scalar.
   Variable F : kfilter Rops.
   Local Notation n := (kdim Rops F).
